@@ -557,6 +557,8 @@ impl ReadableDatabase for Database {
         let guard = TransactionGuard::allocate_read(self.transaction_tracker.clone(), &self.mem)?;
         #[cfg(feature = "logging")]
         debug!("Beginning read transaction id={:?}", guard.id());
+        #[cfg(redb_verif)]
+        crate::verif_sched::pause("read.registered");
         ReadTransaction::new(self.get_memory(), guard)
     }
 
@@ -1378,6 +1380,8 @@ fn close_database(transaction_tracker: &Arc<TransactionTracker>, mem: &Arc<Trans
 
 impl Drop for Database {
     fn drop(&mut self) {
+        #[cfg(redb_verif)]
+        crate::verif_sched::pause("db.drop");
         if self
             .transaction_tracker
             .defer_close_if_write_transaction_live(&self.mem)
@@ -1388,6 +1392,8 @@ impl Drop for Database {
             warn!(
                 "Database dropped while a write transaction is in progress. The database will remain open until the write transaction completes."
             );
+            #[cfg(redb_verif)]
+            crate::verif_sched::pause("db.drop.deferred");
             return;
         }
 
